@@ -150,19 +150,34 @@ Projs(v) == << Frustum(pl, pr, pb, pt, pn, pf, v[1], v[2]), Ortho(pl, pr, pb, pt
                Perspective(pT, pA, pn, pf, v[1], v[2]), InfinitePerspective(pT, pA, pn, v[1], v[2]) >>
 \* mutually inverse (wherever the point has a non-zero clip w, resp. a finite pre-image); the depth convention of
 \* project/unProject is independent of the one the projection was built for
-InvRoundTrip == ProjPart => \A v \in Variants : \A j \in 1..4 :
+InvRoundTrip == ProjPart => \A v \in Variants : \A j \in {((ix \div 9) % 2) + 1, ((ix \div 9) % 2) + 3} :     \* two of the four families per tuple
     LET P == Projs(v)[j]
         PMm == MMulN(P, Model)
         adj == Adj4N(PMm)
         det == Det4N(PMm)
         zo == IF j % 2 = 0 THEN v[2] ELSE ~v[2]
     IN /\ ~QIsZero(det)
-       /\ (j = 1 => QEq(det, MDet(MMul(P, Model))))                                 \* the normalising algebra agrees with LinQ
+       /\ (j <= 2 => QEq(det, MDet(MMul(P, Model))))                                 \* the normalising algebra agrees with LinQ
        /\ \A i \in 1..4 : VEq(MVecN(PMm, MCol(adj, i)), [r \in 1..4 |-> IF r = i THEN det ELSE QZero])   \* (P*M) * adj = det * I
        /\ \A p \in Points : ~QIsZero(ClipOf(p, Model, P)[4]) =>
                VEq(DeHom(UnProjectHomA(adj, ProjectQ(p, Model, P, Viewport, zo), Viewport, zo)), p)
        /\ \A w \in Wins : LET o == UnProjectHomA(adj, w, Viewport, zo) IN
                ~QIsZero(o[4]) => VEq(ProjectQ(DeHom(o), Model, P, Viewport, zo), w)
+\* the division-free forms used by the trace specification are the definitions: window = N / D, and the scaled NDC
+\* point has the same pre-image; the normalising dyadic-aware sum / product are the rational sum / product
+InvHomForms == ProjPart => \A v \in Variants : \A zo \in BOOLEAN :
+    LET P == Projs(v)[(ix % 4) + 1] adj == Adj4N(MMulN(P, Model)) IN
+    /\ \A p \in Points : ~QIsZero(ClipOf(p, Model, P)[4]) =>
+          LET h == ProjectHom(p, Model, P, Viewport, zo)
+          IN VEq(<< QDiv(h[1], h[4]), QDiv(h[2], h[4]), QDiv(h[3], h[5]) >>, ProjectQ(p, Model, P, Viewport, zo))
+    /\ \A w \in Wins : LET o == UnProjectHomA(adj, w, Viewport, zo) os == UnProjectHomS(adj, w, Viewport, zo) IN
+          /\ QIsZero(o[4]) = QIsZero(os[4])
+          /\ (~QIsZero(o[4]) => VEq(DeHom(o), DeHom(os)))
+    /\ \A x \in {pl, pT, QF(3, 7)} : \A y \in {pb, pA, QF(-5, 48)} :
+          /\ QEq(QAddN(x, y), QAdd(x, y)) /\ QEq(QMulN(x, y), QMul(x, y)) /\ QEq(QSubN(x, y), QSub(x, y))
+          /\ (IsDyadicQ(x) => DEq(DOfQ(QN2(x)), DMk(x.p.neg, x.p.m, -Lg2(x.q))) /\ QEq(QFromD(DOfQ(x)), x))
+          /\ DLe(LowD(DOfQ(QMulN(pf, QF(12345, 4096)))), DAbs(DOfQ(QMulN(pf, QF(12345, 4096)))))
+          /\ DLe(DAbs(DOfQ(QMulN(pf, QF(-1234567, 4096)))), UpD(DOfQ(QMulN(pf, QF(-1234567, 4096)))))
 \* the depth conventions differ: with the other convention the round trip still closes, but the images differ
 InvDepthConvention == ProjPart => \A p \in Points :
     LET P == Frustum(pl, pr, pb, pt, pn, pf, FALSE, FALSE) IN
